@@ -295,7 +295,7 @@ func TestVerif_C09(t *testing.T) {
 		if repeated || mixed {
 			rep.Nontrivial(fmt.Sprintf("%d/%s/%d/%v/%v/%x", nch, shape, mode, repeated, mixed, salt%4096))
 		}
-		if i < 2 {
+		if rep.WantSample() {
 			rep.Sample(wit())
 		}
 	})
